@@ -8,6 +8,7 @@ Each shim is a statement that "a float array is read as an array of reals":
  (4) cpu_ops.epsilon is a symbolic constant EPS >= 0 (or exactly 0 in the "guard-consistent at eps=0" mode).
 """
 import contextlib
+import math as _math
 import importlib
 import sys
 
@@ -68,7 +69,28 @@ class NPProxy:
 for _n in ("exp", "log", "sqrt", "tanh"):
     setattr(NPProxy, _n, staticmethod(NPProxy._lift1(_n)))
 
+class MathProxy:
+    """stand-in for the `math` module of the patched modules: the scalar functions lift to symbolic reals, everything else is math's own"""
+
+    def __getattr__(self, k):
+        return getattr(_math, k)
+
+
+def _mlift(name):
+    def f(x, *a):
+        if isinstance(x, S):
+            return getattr(x, name)()
+        return getattr(_math, name)(x, *a)
+    return f
+
+
+for _n in ("exp", "log", "sqrt", "tanh"):
+    setattr(MathProxy, _n, staticmethod(_mlift(_n)))
+MathProxy.pow = staticmethod(lambda x, y: x ** y if isinstance(x, S) or isinstance(y, S) else _math.pow(x, y))
+MathProxy.fabs = staticmethod(lambda x: abs(x) if isinstance(x, S) else _math.fabs(x))
+
 PROXY = NPProxy()
+MPROXY = MathProxy()
 PATCHED_MODULES = ["synapgrad.cpu_ops", "synapgrad.conv_tools", "synapgrad.nn.layers", "synapgrad.optim.optimizers",
                    "synapgrad.nn.functional"]
 
@@ -104,6 +126,8 @@ def symbolic(eps="symbolic"):
             continue
         if hasattr(m, "np"):
             patch(m, "np", PROXY)
+        if getattr(m, "math", None) is _math:
+            patch(m, "math", MPROXY)
     if eps == "symbolic":
         e = eps_symbol()
         core.session().pre.append(e >= 0)
